@@ -25,6 +25,7 @@ func (s *BadgerStore) ReadRound(hash crypto.Hash) (*common.Round, error) {
 }
 
 func (s *BadgerStore) UpdateEmptyHeadRound(node crypto.Hash, number uint64, references *common.RoundLink) error {
+	defer verifAfterRound(s, "UEH", node, number, references)
 	txn := s.snapshotsDB.NewTransaction(true)
 	defer txn.Discard()
 
@@ -73,6 +74,7 @@ func (s *BadgerStore) UpdateEmptyHeadRound(node crypto.Hash, number uint64, refe
 }
 
 func (s *BadgerStore) StartNewRound(node crypto.Hash, number uint64, references *common.RoundLink, finalStart uint64) error {
+	defer verifAfterRound(s, "SNR", node, number, references)
 	txn := s.snapshotsDB.NewTransaction(true)
 	defer txn.Discard()
 
